@@ -92,10 +92,10 @@ class ModelExpr:
             return f"show_ustr (tmpl_Display_Qty_none_{self.path(T)} {I} {self.q(T, a[0], a[1])} {sp})"
         if op in ("ser", "rt_value", "rt_text", "ser_unit", "rt_unit"):
             g = f"(ce_gen {T})"
-            if op == "ser": return f"show_qty_sval (ser_qty AM ENC {g} {self.q(T, a[0], a[1])})"
+            if op == "ser": return f"show_qty_sval (ser_entry AM ENC {g} {A(a[0])} {int(a[1])}%nat)"
             if op == "ser_unit": return f"match ser_unit {g} {int(a[0])}%nat with VStr s => show_ustr s | _ => \"?\" end"
             if op == "rt_unit": return f"match de_unit {g} (ser_unit {g} {int(a[0])}%nat) with Some u => show_nat u | None => \"DE-ERROR\" end"
-            return f"match de_qty AM DCD {g} (ser_qty AM ENC {g} {self.q(T, a[0], a[1])}) with Some q => {sq} q | None => \"DE-ERROR\" end"
+            return f"rt_entry AM ENC DCD sa {g} {A(a[0])} {int(a[1])}%nat"
         if op == "units": return f"show_units {I}"
         if op == "consts": return f"show_consts {T}"
         if op == "scales": return f"show_scales sa {I}"
